@@ -91,6 +91,34 @@ fn generate_seed_sdps() -> Vec<(String, String)> {
             None => crate::machinery_failure(&format!("cannot produce seed offer/answer in mode {mn}")),
         }
     }
+    // T.38 (m=image ... udptl t38) offer/answer in plain RTP mode
+    let r = rt();
+    let t38 = r.block_on(async {
+        let mut c = cfg(TransportMode::Rtp);
+        c.media_capabilities = Some(rustrtc::MediaCapabilities {
+            audio: vec![rustrtc::AudioCapability::pcmu()],
+            video: vec![],
+            application: None,
+            image: vec![rustrtc::T38Capability::default_t38()],
+        });
+        let a = PeerConnection::new(c.clone());
+        a.add_transceiver(MediaKind::Audio, TransceiverDirection::SendRecv);
+        a.add_transceiver(MediaKind::Image, TransceiverDirection::SendRecv);
+        let offer = a.create_offer().await.ok()?;
+        let _ = a.set_local_description(offer.clone());
+        let b = PeerConnection::new(c);
+        b.set_remote_description(offer.clone()).await.ok()?;
+        let answer = b.create_answer().await.ok()?;
+        a.close();
+        b.close();
+        Some((offer.to_sdp_string(), answer.to_sdp_string()))
+    });
+    if let Some((o, a)) = t38 {
+        if o.contains("m=image") {
+            out.push(("offer-rtp-t38".to_string(), o));
+            out.push(("answer-rtp-t38".to_string(), a));
+        }
+    }
     out
 }
 
@@ -182,26 +210,35 @@ pc_entry!(run_offer_webrtc, run_answer_webrtc, TransportMode::WebRtc);
 pc_entry!(run_offer_srtp, run_answer_srtp, TransportMode::Srtp);
 pc_entry!(run_offer_rtp, run_answer_rtp, TransportMode::Rtp);
 
-/// Constant allocation of negotiating a session (transceivers, tracks, sockets, ICE/DTLS
-/// objects) that does not depend on the remote text; measured once on the unmodified seeds
-/// and doubled. The input-proportional part of the bound stays 64 bytes per input byte.
-pub const PC_ALLOC_BASE: u64 = 4 * 1024 * 1024;
+/// Constant part of the allocation bound for PeerConnection-level entries. Negotiating the
+/// stack's own three-section offer allocates about 100 KB whatever the remote text says
+/// (transceivers, receive tracks with their sample rings, ICE/DTLS objects; measured with
+/// C07_MEASURE_SEEDS=1); the constant is ten times that. The input-proportional part stays
+/// 64 bytes per input byte.
+pub const PC_ALLOC_BASE: u64 = 1024 * 1024;
 
 const IDX9: [u8; 9] = [0, 1, 2, 3, 4, 5, 6, 7, 8];
-const ATTR_KEYS: [&str; 12] =
-    ["mid", "rtpmap", "fmtp", "extmap", "rid", "simulcast", "crypto", "ssrc", "setup", "fingerprint", "sctp-port", "candidate"];
-const ATTR_TOK: [&str; 9] = ["0", "65535", "65536", "96", "-1", "send", "actpass", "1 udp 1 127.0.0.1 9 typ host", ""];
+const ATTR_KEYS: [&str; 30] = [
+    "mid", "rtpmap", "fmtp", "extmap", "rid", "simulcast", "crypto", "ssrc", "setup", "fingerprint", "sctp-port", "candidate",
+    "ice-ufrag", "ice-pwd", "ice-options", "rtcp", "msid", "ssrc-group", "group", "rtcp-fb", "rtcp-mux", "ice-lite",
+    "end-of-candidates", "msid-semantic", "max-message-size", "T38FaxVersion", "T38MaxBitRate", "T38FaxUdpEC",
+    "T38FaxRateManagement", "connection",
+];
+const ATTR_TOK: [&str; 9] = ["0", "65535", "65536", "96", "-1", "send", "FID", "1 udp 1 127.0.0.1 9 typ host", ""];
+/// attribute key from the first two bytes (k = b0*9+b1), value tokens from the rest
 fn attr_sdp(media: &str, b: &[u8]) -> Vec<u8> {
-    let (k, rest) = match b.split_first() {
-        Some((k, r)) => (*k, r),
-        None => (0, &[][..]),
+    let k = match b {
+        [] => 0usize,
+        [a] => *a as usize,
+        [a, c, ..] => *a as usize * 9 + *c as usize,
     };
+    let rest = if b.len() > 2 { &b[2..] } else { &[][..] };
     let val: Vec<&str> = rest.iter().map(|x| ATTR_TOK[*x as usize % ATTR_TOK.len()]).collect();
     format!(
         "{}{}a={}:{}\r\na=sendrecv\r\n",
         super::entries_text::SDP_HEAD,
         media,
-        ATTR_KEYS[k as usize % ATTR_KEYS.len()],
+        ATTR_KEYS[k % ATTR_KEYS.len()],
         val.join(" ")
     )
     .into_bytes()
@@ -216,6 +253,10 @@ fn fr_offer_webrtc_attr(b: &[u8]) -> Vec<u8> {
 /// minimal plain-RTP offer with one enumerated attribute
 fn fr_offer_rtp_attr(b: &[u8]) -> Vec<u8> {
     attr_sdp("m=audio 4000 RTP/AVP 0 8\r\nc=IN IP4 127.0.0.1\r\n", b)
+}
+/// minimal T.38 offer (m=image ... udptl t38) with one enumerated attribute
+fn fr_offer_t38_attr(b: &[u8]) -> Vec<u8> {
+    attr_sdp("m=image 4000 udptl t38\r\nc=IN IP4 127.0.0.1\r\n", b)
 }
 /// minimal SDES offer with one enumerated attribute
 fn fr_offer_srtp_attr(b: &[u8]) -> Vec<u8> {
@@ -242,7 +283,10 @@ pub fn entries() -> Vec<Entry> {
     vec![
         mk("pc[webrtc].set_remote_description(offer)>create_answer", run_offer_webrtc, "offer-webrtc").frame("webrtc offer a=key:tokens", fr_offer_webrtc_attr),
         mk("pc[srtp].set_remote_description(offer)>create_answer", run_offer_srtp, "offer-srtp").frame("sdes offer a=key:tokens", fr_offer_srtp_attr),
-        mk("pc[rtp].set_remote_description(offer)>create_answer", run_offer_rtp, "offer-rtp").frame("rtp offer a=key:tokens", fr_offer_rtp_attr),
+        mk("pc[rtp].set_remote_description(offer)>create_answer", run_offer_rtp, "offer-rtp")
+            .seeds(pick("offer-rtp-t38"))
+            .frame("rtp offer a=key:tokens", fr_offer_rtp_attr)
+            .frame("t38 offer a=key:tokens", fr_offer_t38_attr),
         mk("pc[webrtc].set_remote_description(answer)", run_answer_webrtc, "answer-webrtc"),
         mk("pc[srtp].set_remote_description(answer)", run_answer_srtp, "answer-srtp"),
         mk("pc[rtp].set_remote_description(answer)", run_answer_rtp, "answer-rtp"),
